@@ -368,6 +368,47 @@ func init() {
 				}
 			}
 		}
+		// text claims whose *value* is one of the structural names (a member name, a profile name, a key spelling, a JSON
+		// literal): the verification-service indicator and the component texts take every one of them in turn
+		for _, p := range []string{"P1", "P2"} {
+			var base *CSpec
+			for _, m := range doc[p] {
+				if s := specFromObj(m); len(s.Sw) >= 1 {
+					if _, has := s.Vals["vsi"]; has {
+						base = &s
+						break
+					}
+				}
+			}
+			if base == nil {
+				fatal("no valid %s set with an indicator and a component", p)
+			}
+			for _, name := range structuralNames() {
+				s := base.clone()
+				s.Vals["vsi"] = V{K: "str", N: len(name), B0: strClass(name), S: []any{}}
+				forceName = name
+				var c psatoken.IClaims
+				how := []string{"setters", "lit"}[cc.r.Intn(2)]
+				if how == "setters" {
+					var ok bool
+					if c, ok = cc.BuildSetters(s, func() psatoken.IClaims { x, _ := psatoken.NewClaims(canonOf[p]); return x }); !ok {
+						how, c = "lit", cc.BuildLit(s)
+					}
+				} else {
+					c = cc.BuildLit(s)
+				}
+				forceName = ""
+				if doCBOR {
+					t.Emit(observeEncodeCBOR(b, "names:"+p, how, c), true, true)
+					b++
+				}
+				if doJSON {
+					t.Emit(observeEncodeJSON(b, "names:"+p, how, c, reg), true, true)
+					b++
+				}
+				bysrc[p+":names"]++
+			}
+		}
 		// long component lists, around the boundaries of the CBOR array head (23 | 24, 255 | 256)
 		lens := []int{5, 23, 24, 25, 256}
 		if a.Tier == "thorough" {
